@@ -38,10 +38,10 @@ CHECKS.update({
 PP = "path-policy abstract interpretation of the canonization walks on symbolic tables (the data-dependent comparisons are fixed by a policy per abstract path), plus predicates on the evaluated constant sequences"
 CHECKS.update({
     "C04": dict(cat="other", ref="3 C04", technique=PP,
-        text="For each canonization, type and n in the tier's range the walk is run on a symbolic table along the path where no visited table is smaller: it terminates normally, returns the input unchanged, compares every visited table against the best so far (most significant word first), and the visited tables plus the input are exactly the orbit of the input under the group (computed on symbolic tables, hence for every function). Constant flip/swap sequences are closed covering cycles. For n = 7, 8 the step kernels the walks call are shown to be the group generators (adjacent transposition / complement of a variable) on symbolic tables. Minimality follows with the order decided by C08.",
+        text="For each canonization, type and n in the tier's range the walk is run on a symbolic table along the path where no visited table is smaller: it terminates normally, returns the input unchanged, compares every visited table against the best so far (most significant word first), and the visited tables plus the input are exactly the orbit of the input under the group (computed on symbolic tables, hence for every function). Constant flip/swap sequences are closed covering cycles. For n = 7, 8 the step kernels the walks call are shown to be the group generators (adjacent transposition / complement of a variable) on symbolic tables. On tables with at most 8 symbolic bits (all functions of n <= 3, windows at n = 4 and n = 7) the methods run in window mode and return, for every choice, the smallest image under the group computed by brute force. Minimality for larger n follows with the order decided by C08.",
         note="Partial: walks on the hard-coded sequences (p n<=5/6, n n<=6, npn n<=3/4 quick/thorough); for n=7 (8 thorough) only the folded run-time generated sequences are checked (closed covering cycles, same for walk and decoder), not the walk itself. Trusted: " + TB + "; the step from 'every orbit element visited and the strictly smaller kept' to 'minimum returned'."),
     "C05": dict(cat="other", ref="3 C05", technique=PP,
-        text="Along the path where no comparison succeeds the returned certificate is the identity; along the path where exactly the k-th comparison succeeds the returned table is the k-th visited table and the returned (perm, mask) maps the symbolic input to it by the statement's formula, perm a permutation and mask without bits above n - for every comparison index k (sampled for the longest walks in the quick tier), every n in range, both types.",
+        text="Along the path where no comparison succeeds the returned certificate is the identity; along the path where exactly the k-th comparison succeeds the returned table is the k-th visited table and the returned (perm, mask) maps the symbolic input to it by the statement's formula, perm a permutation and mask without bits above n - for every comparison index k (sampled for the longest walks in the quick tier), every n in range, both types. On tables with at most 8 symbolic bits the returned certificate, replayed by the statement's formula, yields the returned table for every choice.",
         note="Partial: n ranges as C04. Paths with several successful comparisons are covered by the last-success index only (decoder depends only on the final index). Trusted: " + TB),
     "C08": dict(cat="other", ref="3 C08", technique="abstract summary of Ord::cmp on symbolic tables (reversed word views, lexicographic); per-path word-level terms of the successor kernel; iterator typestate by abstract interpretation",
         text="Ord::cmp of both types compares the two tables word for word, most significant word first, as unsigned integers (Lut: variable count first); PartialOrd forwards to it (a comparison written as control flow - compare a block, return on difference - is recognised and summarised the same way). The iterator hands out a copy of the current table, steps it by (w+1)&mask per word with carry into the next word exactly on wrap-around, clears its flag exactly when all words wrapped, and yields None afterwards; all_functions starts at zero.",
